@@ -859,8 +859,7 @@ func vC01MidCase(rnd *rand.Rand, r *Resolver, tr *vC01Trace) {
 		case 7: // foreign RRset injected
 			f := &dns.A{Hdr: dns.RR_Header{Name: "www.elsewhere.", Rrtype: dns.TypeA, Class: dns.ClassINET, Ttl: 60}, A: []byte{203, 0, 113, 99}}
 			if rnd.Intn(2) == 0 {
-				resp.Answer = append(resp.Answer, f)
-				genuine = false
+				resp.Answer = append(resp.Answer, f) // dropped by answer()'s bailiwick filter unless the zone is the root
 			} else {
 				resp.Ns = append(resp.Ns, f)
 			}
@@ -969,6 +968,11 @@ func vC01MidCase(rnd *rand.Rand, r *Resolver, tr *vC01Trace) {
 			}
 			if !cd && chainSecure && !genuine && len(x.anchors) > 0 {
 				goFail = "altered data accepted under a signed chain"
+			}
+			for _, rr := range out.Answer {
+				if !cd && chainSecure && strings.EqualFold(rr.Header().Name, "www.elsewhere.") {
+					goFail = "a foreign record injected into the answer was served under a signed chain"
+				}
 			}
 			plain := true
 			for _, kk := range kinds {
